@@ -37,29 +37,16 @@ def _indexed(msg, keys):
     return out
 
 
-def judge_msm(case, out):
-    from pyrtcm import RTCMMessage, parse_msm  # pylint: disable=import-outside-toplevel
-
-    ident = case["id"]
-    base = int(ident) // 10
-    try:
-        payload, _o, _n = R.build(ident, case["shape"], "fp")
-    except R.TooLong:
-        out.nontrivial = False
-        return
-    msg = RTCMMessage(payload=payload)
-    tag = f"{ident} {case['shape']}"
+def _check_msm(msg, ident, base, ref, tag, out, parse_msm):
     try:
         res = parse_msm(msg)
     except Exception as err:  # pylint: disable=broad-except
         out.bad("parse_msm-raises", f"{tag}: {type(err).__name__}: {err}")
-        return
+        return None
     if not isinstance(res, tuple) or len(res) != 3:
         out.bad("parse_msm-shape", f"{tag}: returned {type(res).__name__}")
-        return
+        return None
     meta, sats, cells = res
-    ref = msmref.decode_masks(base, case["shape"]["DF394"], case["shape"]["DF395"],
-                              case["shape"]["DF396"])
     want_meta = {"identity": ident, "station": msg.DF003,
                  "epoch": getattr(msg, pinned.MSM_EPOCH[base]), "sats": ref["nsat"],
                  "cells": ref["ncell"]}
@@ -79,15 +66,61 @@ def judge_msm(case, out):
                 out.bad(f"{label}-entry-differs",
                         f"{tag}: {label} entry {i} = {entries[i - 1]!r} but indexed attributes are {want[i]!r}")
                 break
+    return res
+
+
+def judge_msm(case, out):
+    from pyrtcm import RTCMMessage, parse_msm  # pylint: disable=import-outside-toplevel
+
+    ident = case["id"]
+    base = int(ident) // 10
+    try:
+        payload, _o, _n = R.build(ident, case["shape"], "fp")
+    except R.TooLong:
+        out.nontrivial = False
+        return
+    ref = msmref.decode_masks(base, case["shape"]["DF394"], case["shape"]["DF395"],
+                              case["shape"]["DF396"])
+    # the same payload as decoded under each label option, one after the other (a consumer per
+    # option), each result scribbled over by its caller before the next call
+    for lm in (1, 2, 0, 2, 1):
+        msg = RTCMMessage(payload=payload, labelmsm=lm)
+        tag = f"{ident} {case['shape']}" + (f" labelmsm={lm}" if lm != 1 else "")
+        res = _check_msm(msg, ident, base, ref, tag, out, parse_msm)
+        if out.violations:
+            return
+        try:  # what a caller may do with ITS result must not reach later results
+            res[0].clear()
+            for lst in res[1:]:
+                for e in lst:
+                    if isinstance(e, dict):
+                        e.clear()
+                if isinstance(lst, list):
+                    lst.clear()
+        except Exception:  # pylint: disable=broad-except
+            pass
+        if lm == 1:
+            _check_msm(msg, ident, base, ref, tag + " (second call, first result modified by caller)",
+                       out, parse_msm)
     out.obs = core.h64(repr((ident, sorted(case["shape"].items()))))
 
 
-def judge_harm(case, out):
+def _judge_harm_once(case, out, attempt):
     from pyrtcm import RTCMMessage, parse_4076_201  # pylint: disable=import-outside-toplevel
 
     payload, occs, _n = R.build("4076_201", case["shape"], "fp")
     msg = RTCMMessage(payload=payload)
-    tag = f"4076_201 {case['shape']}"
+    tag = f"4076_201 {case['shape']}" + (" (second call, first result modified by caller)" if attempt else "")
+    for _ in range(attempt):
+        try:
+            prev = parse_4076_201(msg)
+            for entry in prev.values():
+                for v in entry.values():
+                    if isinstance(v, list):
+                        v.clear()
+            prev.clear()
+        except Exception:  # pylint: disable=broad-except
+            pass
     try:
         res = parse_4076_201(msg)
     except Exception as err:  # pylint: disable=broad-except
@@ -117,6 +150,12 @@ def judge_harm(case, out):
                 break
     out.extra["max_coeff_index"] = 0
     out.obs = core.h64(repr(sorted(case["shape"].items())))
+
+
+def judge_harm(case, out):
+    _judge_harm_once(case, out, 0)
+    if not out.violations:
+        _judge_harm_once(case, out, 1)
 
 
 def judge_other(case, out):
